@@ -22,7 +22,8 @@ UNIVERSES = {
     # three contracts (a target may then name only some of the held ones)
     "three": (("S", 1.0, 1.0, 0.0), ("F", 2.0, 0.0, 0.25), ("T", 2.0, 1.0, 0.0)),
 }
-FEES = [(0.0, 0.0), (1.0, 1.0 / 64), (1.0, 0.0), (0.0, 1.0 / 64), (2.0, 1.0 / 128), (0.0, 0.0002)]
+FEES = [(0.0, 0.0), (1.0, 1.0 / 64), (1.0, 0.0), (0.0, 1.0 / 64), (2.0, 1.0 / 128), (0.0, 0.0002),
+        (512.0, 0.0)]     # a fixed fee larger than the value of a few lots: such trades are still due
 BASE_QUOTES = [(100.0, 100.0), (100.0, 104.0), (92.0, 96.0), (112.0, 112.0), (48.0, 52.0)]
 TRADE_SIZES = [1.0, -1.0, 2.0, -2.0]
 REBALANCES = [("weight", (0.5, 0.25)), ("weight", (-0.5, 0.0)), ("nr-contracts", (1.0, -1.0)), ("nr-contracts", (0.5, -0.25)),
